@@ -397,6 +397,9 @@ func (im *seqImpl) exec(f []string, rng *seqRng) (res string) {
 		// cancelled right after Commit has returned, while the clean-up it handed over may still be queued
 		ctx, cancel := context.WithCancel(im.ctx)
 		defer cancel()
+		if rng.p(35) { // … or has already ended when Commit is called (a request whose deadline has passed)
+			cancel()
+		}
 		return canonErr(tx.Commit(ctx))
 	case "r":
 		im.mu.Lock()
@@ -407,6 +410,9 @@ func (im *seqImpl) exec(f []string, rng *seqRng) (res string) {
 		}
 		ctx, cancel := context.WithCancel(im.ctx)
 		defer cancel()
+		if rng.p(35) { // `defer tx.Rollback(ctx)` after the request's context has ended
+			cancel()
+		}
 		return canonErr(tx.Rollback(ctx))
 	case "gc":
 		return canonErr(im.d.container.Cleaner().DeleteOld(im.ctx))
